@@ -27,6 +27,7 @@ ndarray objects (contents changed in place between calls) every return is judged
 Margin (either way, counted, never failed): 1e-9 * size + 8 eps * max|coordinate|.
 """
 import collections
+import collections.abc
 import warnings
 
 import numpy as np
@@ -49,7 +50,9 @@ RULE = (
     "float64 ndarray, row view of a 2-D table, float32 ndarray or integer ndarray. Equivalent spellings: size / spacing as python "
     "int or float, numpy integer / floating (float32 too) and 0-d array; spacing and shape pairs as tuple, list, ndarray with python or "
     "numpy elements; centre as tuple, list, 1-D / (1,2) ndarray, numpy scalars, 0-d arrays; sizes as lists mixing all of these; falsy but "
-    "valid values (size 0, an all-zero extra coordinate, points on the northing axis). Non-trivial rolling case = at least two windows with different "
+    "valid values (size 0, an all-zero extra coordinate, points on the northing axis); extra coordinates with NaN / +-inf at points "
+    "whose easting/northing are finite (border points of the cloud included), each such call twinned with the two-coordinate call; "
+    "expanding sizes as one-shot iterables (reversed, map, generator, iter) declared to the monitor. Non-trivial rolling case = at least two windows with different "
     "selections, at least one decided inside and one decided outside (point, window) pair; non-trivial expanding case = at least two "
     "sizes with different selections. Distinct = hash of the coordinate arrays and the configuration."
 )
@@ -103,7 +106,12 @@ FLOORS = {
         "expanding:class:centre_element_python_int": 2, "expanding:class:sizes_element_numpy_float64": 65,
         "expanding:class:sizes_element_ndarray0d_float64": 73, "expanding:class:sizes_element_python_int": 11,
         "expanding:class:sizes_element_numpy_int64": 6, "expanding:class:easting_or_northing_all_zero": 10,
-        "expanding:class:extra_coordinate_all_zero": 56,
+        "expanding:class:extra_coordinate_all_zero": 56, "class:extra_coordinate_non_finite": 108,
+        "class:extra_non_finite_at_a_border_point_of_the_cloud": 90, "expanding:class:extra_coordinate_non_finite": 66,
+        "expanding:class:extra_non_finite_at_a_border_point_of_the_cloud": 55, "eval:extras_ignored.rolling_window": 110,
+        "eval:extras_ignored.expanding_window": 66, "expanding:class:sizes_one_shot_iterable_generator": 14,
+        "expanding:class:sizes_one_shot_iterable_list_iterator": 13,
+        "expanding:class:sizes_one_shot_iterable_list_reverseiterator": 21, "expanding:class:sizes_one_shot_iterable_map": 16,
     },
     "thorough": {
         "eval:rolling_window.centres": 13800, "eval:rolling_window.index_form": 13800, "eval:rolling_window.membership": 13800,
@@ -144,12 +152,18 @@ FLOORS = {
         "expanding:class:centre_element_python_int": 40, "expanding:class:sizes_element_numpy_float64": 1300,
         "expanding:class:sizes_element_ndarray0d_float64": 1460, "expanding:class:sizes_element_python_int": 220,
         "expanding:class:sizes_element_numpy_int64": 120, "expanding:class:easting_or_northing_all_zero": 200,
-        "expanding:class:extra_coordinate_all_zero": 1120,
+        "expanding:class:extra_coordinate_all_zero": 1120, "class:extra_coordinate_non_finite": 2160,
+        "class:extra_non_finite_at_a_border_point_of_the_cloud": 1800, "expanding:class:extra_coordinate_non_finite": 1320,
+        "expanding:class:extra_non_finite_at_a_border_point_of_the_cloud": 1100, "eval:extras_ignored.rolling_window": 2200,
+        "eval:extras_ignored.expanding_window": 1320, "expanding:class:sizes_one_shot_iterable_generator": 280,
+        "expanding:class:sizes_one_shot_iterable_list_iterator": 260,
+        "expanding:class:sizes_one_shot_iterable_list_reverseiterator": 420, "expanding:class:sizes_one_shot_iterable_map": 320,
     },
 }
 JOBS = {"quick": 1, "thorough": 8}
 CASE_TIMEOUT_S = 120
 
+ONE_SHOT_SIZES = {}  # id(iterator) -> the sizes it will yield (declared by the workload just before the call)
 REL_MARGIN = 1e-9
 MAX_PAIRS = 1_500_000  # points x windows per call (workload keeps below; the monitor chunks anyway)
 
@@ -349,6 +363,15 @@ def _describe_input(run, arrays, prefix=""):
         run.count(prefix + "class:extra_coordinates")
         if any(not np.any(a) for a in arrays[2:]):
             run.count(prefix + "class:extra_coordinate_all_zero")
+        bad = np.zeros(arrays[0].size, dtype=bool)
+        for extra in arrays[2:]:
+            if extra.dtype.kind == "f":
+                bad |= ~np.isfinite(extra.ravel())
+        if bad.any():
+            run.count(prefix + "class:extra_coordinate_non_finite")
+            x, y = arrays[0].ravel(), arrays[1].ravel()
+            if np.isfinite(x.astype("float64")).all() and (bad & ((x == x.min()) | (x == x.max()) | (y == y.min()) | (y == y.max()))).any():
+                run.count(prefix + "class:extra_non_finite_at_a_border_point_of_the_cloud")
     if not np.any(arrays[0]) or not np.any(arrays[1]):
         run.count(prefix + "class:easting_or_northing_all_zero")
 
@@ -370,6 +393,11 @@ def install(tap, run):
         snap = {"digest": {name: digest(a.get(name)) for name in names}}
         for name in ("region", "center", "sizes"):
             if name in names and a.get(name) is not None:
+                if name == "sizes" and isinstance(a[name], collections.abc.Iterator):
+                    # a one-shot iterable cannot be read without consuming it: the workload declares what it yields
+                    snap[name] = ONE_SHOT_SIZES.pop(id(a[name]), None)
+                    snap["one_shot"] = type(a[name]).__name__
+                    continue
                 try:
                     snap[name] = [float(v) for v in np.asarray(a[name], dtype="float64").ravel()]
                 except (TypeError, ValueError):
@@ -626,6 +654,11 @@ def install(tap, run):
             arrays = [np.asarray(c) for c in a["coordinates"]]
             # the centre and sizes the caller passed (snapshot taken before the call)
             centre = np.asarray(ev.pre["center"], dtype="float64").ravel()
+            if ev.pre.get("one_shot"):
+                if ev.pre["sizes"] is None:
+                    run.count("skipped:expanding_one_shot_sizes_not_declared")
+                    return
+                run.count("expanding:class:sizes_one_shot_iterable_" + ev.pre["one_shot"])
             sizes = [float(v) for v in ev.pre["sizes"]]
             count_spellings(run, "expanding:class:centre", a["center"])
             if not isinstance(a["sizes"], np.ndarray):
@@ -788,6 +821,72 @@ def _extras(rng, east):
     return out
 
 
+def _poison(rng, flat, rate=0.3):
+    """
+    Extra coordinates (3rd, 4th array: height, time) with NaN / +-inf at some points whose easting and northing are finite,
+    the points on the border of the cloud included. Extras are documented as ignored. Returns (arrays, poisoned?).
+    """
+    if rng.random() >= rate:
+        return flat, False
+    east, north = np.asarray(flat[0]), np.asarray(flat[1])
+    extras = [np.array(x, dtype="float64") for x in flat[2:]]
+    if not extras:
+        extras = [rng.normal(size=east.size) * 10 + 500.0]
+    if len(extras) == 1 and rng.random() < 0.4:
+        extras.append(rng.uniform(0, 1e3, east.size))
+    border = [int(np.argmin(east)), int(np.argmax(east)), int(np.argmin(north)), int(np.argmax(north))]
+    for extra in extras:
+        where = list(rng.integers(0, east.size, int(rng.integers(1, 4))))
+        if rng.random() < 0.7:
+            where += [border[int(j)] for j in rng.integers(0, 4, int(rng.integers(1, 5)))]
+        for j in where:
+            extra[j] = float(rng.choice([np.nan, np.nan, np.inf, -np.inf]))
+    return [flat[0], flat[1]] + extras, True
+
+
+def _same_selection(a, b):
+    """Two index objects (tuples of index arrays) select the same set of points."""
+    if len(a) != len(b):
+        return False
+    return sorted(zip(*[np.asarray(p).tolist() for p in a])) == sorted(zip(*[np.asarray(p).tolist() for p in b]))
+
+
+def _extras_ignored(run, what, with_extras, without):
+    """Metamorphic twin: the call on (easting, northing, extras...) must equal the call on (easting, northing)."""
+    run.evaluated("extras_ignored." + what)
+    problem = None
+    if (with_extras is None) != (without is None):
+        problem = "one of the two calls was refused"
+    elif with_extras is not None:
+        if what == "rolling_window":
+            (c1, i1), (c2, i2) = with_extras, without
+            if not all(np.array_equal(a, b) for a, b in zip(c1, c2)):
+                problem = "window centres differ"
+            elif i1.shape != i2.shape or not all(_same_selection(a, b) for a, b in zip(i1.ravel(), i2.ravel())):
+                problem = "window indices differ"
+        elif len(with_extras) != len(without) or not all(_same_selection(a, b) for a, b in zip(with_extras, without)):
+            problem = "window indices differ"
+    if problem:
+        run.violation("extras_ignored." + what, "non-finite extra coordinates changed the result: " + problem,
+                      {"with_extras": repr(with_extras)[:800], "two_coordinates": repr(without)[:800]}, key="extras:" + what)
+
+
+def _one_shot(rng, sizes):
+    """The sizes as a one-shot iterable (declared to the monitor, which cannot read it without consuming it)."""
+    intended = [float(v) for v in np.asarray(sizes, dtype="float64").ravel()]
+    kind = int(rng.integers(0, 4))
+    if kind == 0:
+        obj = reversed(intended[::-1])
+    elif kind == 1:
+        obj = map(float, [repr(v) for v in intended])
+    elif kind == 2:
+        obj = (v for v in intended)
+    else:
+        obj = iter(intended)
+    ONE_SHOT_SIZES[id(obj)] = intended
+    return obj, intended
+
+
 def _spell_pair(rng, pair, integers=False):
     """(south-north, west-east) spacing or shape as tuple / list / ndarray, elements python or numpy scalars."""
     a, b = (int(v) for v in pair) if integers else (float(v) for v in pair)
@@ -934,9 +1033,11 @@ def _rolling_case(run, vc, rng):
             spell_number(rng, kwargs["spacing"], single_ok=True)
     else:
         kwargs["shape"] = _spell_pair(rng, kwargs["shape"], integers=True)
-    flat = [east, north] + _extras(rng, east)
+    flat, poisoned = _poison(rng, [east, north] + _extras(rng, east))
     coords = _layout(rng, flat)
     out = _call_rolling(run, vc, coords, **kwargs)
+    if poisoned:
+        _extras_ignored(run, "rolling_window", out, _call_rolling(run, vc, coords[:2], **kwargs))
     if out is not None:
         run.sample("rolling", {"coordinates": coords[:2], "n_extra": len(coords) - 2, "kwargs": kwargs,
                                "centres_shape": list(out[0][0].shape), "first_window_index": repr(out[1].ravel()[0])[:300]})
@@ -975,7 +1076,7 @@ def _rolling_edge_case(run, vc, rng):
         east = np.where(which < 0.4, east + delta, east)
         north = np.where(which > 0.6, north + delta, north)
         flat = [east, north]
-    flat = flat + _extras(rng, east)
+    flat, poisoned = _poison(rng, flat + _extras(rng, east), rate=0.2)
     if kwargs["region"] is None:
         del kwargs["region"]
     kwargs["size"] = spell_number(rng, size, single_ok=size < 0.9 * min(m, p) * step)
@@ -988,6 +1089,8 @@ def _rolling_edge_case(run, vc, rng):
     if coords[0].ndim == 1 and rng.random() < 0.5:
         coords = tuple(c.reshape(p + 1, m + 1) for c in coords)
     out = _call_rolling(run, vc, coords, **kwargs)
+    if poisoned:
+        _extras_ignored(run, "rolling_window", out, _call_rolling(run, vc, coords[:2], **kwargs))
     if out is not None:
         run.sample("rolling_edge", {"lattice": [m + 1, p + 1], "step": step, "offset": off, "integer_dtype": bool(integer), "kwargs": kwargs,
                                     "centres_shape": list(out[0][0].shape)})
@@ -1056,8 +1159,15 @@ def _expanding_case(run, vc, rng):
             # falsy but valid: every point on the northing axis (easting == 0), with a non-zero extra coordinate
             flat = [np.zeros(east.size), north, east]
             centre = _spell_centre(rng, 0.0, float(np.asarray(centre, dtype="float64").ravel()[1]))
+        flat, poisoned = _poison(rng, flat)
         coords = _layout(rng, flat)
+        declared = sizes
+        if rng.random() < 0.3:
+            sizes, declared = _one_shot(rng, sizes)
         out = vc.expanding_window(coords, center=centre, sizes=sizes)
+        if poisoned:
+            _extras_ignored(run, "expanding_window", out, vc.expanding_window(coords[:2], center=centre, sizes=declared))
+        sizes = declared
     run.sample("expanding", {"coordinates": coords[:2], "n_extra": len(coords) - 2, "center": centre, "sizes": sizes,
                              "selected_per_size": [int(np.size(i[0])) for i in out]})
 
@@ -1075,12 +1185,20 @@ def _expanding_edge_case(run, vc, rng):
             sizes = [max(v, 0.0) for v in sizes]
         integer = rng.random() < 0.35 and step >= 1
         flat = [east.astype("int64"), north.astype("int64")] if integer else [east, north]
-        coords = _layout(rng, flat + _extras(rng, east))
+        flat, poisoned = _poison(rng, flat + _extras(rng, east), rate=0.2)
+        coords = _layout(rng, flat)
         if coords[0].ndim == 1 and rng.random() < 0.5:
             coords = tuple(c.reshape(p + 1, m + 1) for c in coords)
         if rng.random() < 0.5:
             sizes = [spell_number(rng, v) for v in sizes]
-        out = vc.expanding_window(coords, center=_spell_centre(rng, cx, cy), sizes=sizes)
+        declared = sizes
+        if rng.random() < 0.3:
+            sizes, declared = _one_shot(rng, sizes)
+        centre = _spell_centre(rng, cx, cy)
+        out = vc.expanding_window(coords, center=centre, sizes=sizes)
+        if poisoned:
+            _extras_ignored(run, "expanding_window", out, vc.expanding_window(coords[:2], center=centre, sizes=declared))
+        sizes = declared
     run.sample("expanding_edge", {"lattice": [m + 1, p + 1], "step": step, "center": [float(cx), float(cy)], "sizes": sizes,
                                   "selected_per_size": [int(np.size(i[0])) for i in out]})
 
